@@ -94,7 +94,7 @@ Proof.
       destruct (rdf_hash_checked (lkind f p)); [|reflexivity].
       unfold refreshed. rewrite Hs. apply N.eqb_refl.
     - apply in_sort_desc, in_dedup. apply (qfile_get_in q p v Hq). }
-  unfold prune_dirs in H2.
+  rewrite prune_dirs_eq in H2.
   pose proof (prune_loop_inv f1 _ _ f1 [] [] f2 dlog (trace_inv_init f1) H2) as Hinv.
   destruct (fs_get f2 p) as [e|] eqn:E; [|reflexivity].
   apply (ti_sub _ _ _ _ Hinv) in E. congruence.
